@@ -74,4 +74,5 @@ let () = register "packser" packser
 let () = register "packref" packref
 let () = register "packparse" packparse
 let () = register "packbig" (fun _ -> "unmodelled")
+let () = register "packparsebig" (fun _ -> "unmodelled")
 let () = register "sjis" (fun _ -> "unmodelled")
